@@ -117,6 +117,16 @@ CLAIMED = {
         "technique": "Lean 4 proof (threshold ladders, omega) + exhaustive boundary enumeration as correspondence",
         "design_ref": "DESIGN.md §6 C19",
     },
+    "C11": {
+        "text": "Lean 4 theorems (Props/C11.lean): the applicability table (13 names x 4 formats, decided exhaustively) and refusal of every other name, "
+                "validate = the documented consistency rules for every setting (C11_validate_iff), defaults, Header accepted iff integer >= 0, Sheet iff >= 1, "
+                "literal character spelling. Correspondence: 14 spelling kinds x ~110 code points rendered by the Lean spec and fed to the real set_property, "
+                "all value sets over printable ASCII, applicability matrix, consistency product, encodings vs codecs.lookup.",
+        "note": "Trusted: Lean kernel; DataFormat model faithfulness (exhaustive correspondence); the codec registry is a parameter; the equivalence of the numeric/quoted/"
+                "symbolic spellings is established by exhaustive correspondence over the pool (the lexer-level Lean proof is not done yet).",
+        "technique": "Lean 4 proof (finite tables by decide, consistency by case analysis) + exhaustive differential correspondence",
+        "design_ref": "DESIGN.md §6 C11",
+    },
 }
 
 NOT_YET = {
